@@ -50,6 +50,7 @@ CONSTANTS LabOrder,  \* label sets in the order a scrape appends them, e.g. <<"a
           R,         \* head chunk range
           Gaps,      \* by how much a scrape may advance the clock afterwards
           Kinds,     \* scrape kinds in use, subset of {"zero", "own", "stale"}
+          ScrapeSets, \* the sets of label sets a scrape / a selected-series compaction may name ({} = all non-empty subsets)
           MaxClk,    \* bound of the clock
           OOOBack,   \* how far back (before clk) an out-of-order sample may be
           Snap,      \* EnableMemorySnapshotOnShutdown
@@ -196,27 +197,27 @@ Alive(o) == o.ch # {} \/ o.ooh # {} \/ o.oom # {}
 FirstFile(o) == Min2(IF MmCh(o) = {} THEN BIGF ELSE (CHOOSE c \in MmCh(o) : \A d \in MmCh(o) : c.lo <= d.lo).f,
                      IF o.oom = {} THEN BIGF ELSE (CHOOSE c \in o.oom : \A d \in o.oom : c.n <= d.n).f)
 
+\* (TLC re-evaluates a LET definition at every use inside an action but caches operator arguments: values that
+\*  are used more than once are therefore passed on as arguments of a continuation operator throughout this module)
 \* returns [ser, byRef, exp, actual, minFile, dead]
+GC3(tr, br, ex, mint, dead, live, actual, drefs) ==
+  [ser |-> [l \in Labs |-> IF l \in dead THEN NoObj ELSE tr[l]],
+   byRef |-> DelF(br, drefs),                       \* delete(s.series[stripe], series.ref): whatever the ref maps to
+   exp |-> [r \in DOMAIN ex \cup drefs |-> IF r \in drefs THEN actual ELSE ex[r]],
+   actual |-> actual,
+   minFile |-> MinOr({FirstFile(tr[l]) : l \in live}, BIGF),
+   dead |-> dead]
+GC2(tr, br, ex, mint, dead, live) ==
+  GC3(tr, br, ex, mint, dead, live, IF live = {} THEN mint ELSE SetMin({SerMin(tr[l]) : l \in live}), {tr[l].r : l \in dead})
+GC1(tr, br, ex, mint) ==
+  GC2(tr, br, ex, mint, {l \in Labs : tr[l].ex /\ ~Alive(tr[l])}, {l \in Labs : tr[l].ex /\ Alive(tr[l])})
 GC(sr, br, ex, mint, moo) ==
-  LET tr   == [l \in Labs |-> IF sr[l].ex THEN TruncObj(sr[l], mint, moo) ELSE sr[l]]
-      dead == {l \in Labs : tr[l].ex /\ ~Alive(tr[l])}
-      live == {l \in Labs : tr[l].ex /\ Alive(tr[l])}
-      actual == IF live = {} THEN mint ELSE SetMin({SerMin(tr[l]) : l \in live})
-      drefs == {tr[l].r : l \in dead}
-  IN [ser |-> [l \in Labs |-> IF l \in dead THEN NoObj ELSE tr[l]],
-      byRef |-> DelF(br, drefs),                       \* delete(s.series[stripe], series.ref): whatever the ref maps to
-      exp |-> [r \in DOMAIN ex \cup drefs |-> IF r \in drefs THEN actual ELSE ex[r]],
-      actual |-> actual,
-      minFile |-> MinOr({FirstFile(tr[l]) : l \in live}, BIGF),
-      dead |-> dead]
+  GC1([l \in Labs |-> IF sr[l].ex THEN TruncObj(sr[l], mint, moo) ELSE sr[l]], br, ex, mint)
 
 \* truncateSeriesAndChunkDiskMapper: minTime / minValidTime adjustment after gc
+AfterGC1(actual, amv) == IF actual < amv THEN <<actual, actual>> ELSE <<amv, amv>>
 AfterGC(g, hmin, hmax, mv) ==
-  IF g.actual > hmin
-    THEN LET amv == Max2(hmax - (R \div 2), mv)
-             nm  == IF g.actual < amv THEN g.actual ELSE amv
-         IN <<nm, nm>>
-    ELSE <<hmin, mv>>
+  IF g.actual > hmin THEN AfterGC1(g.actual, Max2(hmax - (R \div 2), mv)) ELSE <<hmin, mv>>
 
 -----------------------------------------------------------------------------
 (* Head.truncateWAL(mint) -> wlog.Checkpoint.  L = [segs, first, cp, exp] *)
@@ -227,17 +228,17 @@ KeepEntry(br, ex, mint, e) ==
     [] e.k = "D" -> e.x.t >= mint
     [] e.k = "T" -> Keep(br, ex, mint, e.r)
 
+TruncateWAL2(L, br, mint, segs1, lastC, cnt) ==
+  [segs |-> SubSeq(segs1, cnt + 1, Len(segs1)), first |-> lastC + 1,
+   cp |-> [idx |-> lastC, es |-> SelectSeq(L.cp.es \o Flat(SubSeq(segs1, 1, cnt)), LAMBDA e : KeepEntry(br, L.exp, mint, e))],
+   exp |-> DelF(L.exp, {r \in DOMAIN L.exp : L.exp[r] < mint})]
+TruncateWAL1(L, br, mint, n, segs1, lastC) ==
+  IF n - 2 < 0 \/ lastC <= L.first THEN [L EXCEPT !.segs = segs1]
+  ELSE TruncateWAL2(L, br, mint, segs1, lastC, lastC - L.first + 1)
 TruncateWAL(L, br, mint) ==
-  LET n      == Len(L.segs)
-      segs1  == Append(L.segs, <<>>)                          \* NextSegment
-      lastC  == L.first + (((n - 2) * 2) \div 3)              \* first + (last-1-first)*2/3
-  IN IF n - 2 < 0 \/ lastC <= L.first THEN [L EXCEPT !.segs = segs1]
-     ELSE LET cnt  == lastC - L.first + 1
-              old  == L.cp.es \o Flat(SubSeq(segs1, 1, cnt))
-              kept == SelectSeq(old, LAMBDA e : KeepEntry(br, L.exp, mint, e))
-          IN [segs |-> SubSeq(segs1, cnt + 1, Len(segs1)), first |-> lastC + 1,
-              cp |-> [idx |-> lastC, es |-> kept],
-              exp |-> DelF(L.exp, {r \in DOMAIN L.exp : L.exp[r] < mint})]
+  TruncateWAL1(L, br, mint, Len(L.segs),
+               Append(L.segs, <<>>),                                      \* NextSegment
+               L.first + (((Len(L.segs) - 2) * 2) \div 3))                 \* first + (last-1-first)*2/3
 
 -----------------------------------------------------------------------------
 (* NoReuse: who still refers to a ref, and under which label set *)
@@ -286,6 +287,8 @@ ScriptOOO == <<{"Scrape"}, {"Scrape"}, {"OOO"}, {"Scrape", "Mmap", "OOO"}, {"Cut
 \* shortest routes to the two known findings
 ScriptKF == <<{"Scrape"}, {"Restart"}, {"Scrape", "EvictSel"}, {"Restart"}, {"Scrape"}>>
 
+Subsets == IF ScrapeSets = {} THEN (SUBSET Labs) \ {{}} ELSE ScrapeSets
+
 Allowed == IF nops < Len(Script) THEN Script[nops + 1] ELSE Acts
 
 -----------------------------------------------------------------------------
@@ -321,32 +324,33 @@ Step(rec) == /\ nops' = nops + 1
 \* one Append(arg, l, x.t, v) on state A = [ser, byRef, lastID, issued, news (series created by this appender),
 \*  ents (sample entries), rets, kf]
 \* headAppender.Append: getByID(arg), else getOrCreate(labels); returns the ref of the series used
+DoAppend3(A, l, arg, tl, creat, newr, ser1, br1, own, x, ret, o1, bad) ==
+  [ser |-> [ser1 EXCEPT ![tl] = o1], byRef |-> br1, lastID |-> IF creat THEN newr ELSE A.lastID,
+   issued |-> [A.issued EXCEPT ![tl] = @ \cup {ret}],        \* the caller learns: ret is the ref of the series it wrote to
+   news |-> IF creat THEN Append(A.news, E("S", newr, l, NoX)) ELSE A.news,
+   ents |-> Append(A.ents, E("D", ret, tl, x)),
+   recs |-> Append(A.recs, [l |-> l, arg |-> arg, ret |-> ret, tl |-> tl, own |-> LabSeq(own), reuse |-> bad, creat |-> creat]),
+   \* NoReuse at the moment a new ref is handed out: the ref is bound to a live series (KF-C22-2) or still carried (KF-C22-1)
+   kf |-> A.kf \cup (IF creat /\ newr \in DOMAIN A.byRef THEN {"KF-C22-2"} ELSE IF bad THEN {"KF-C22-1"} ELSE {}),
+   wrong |-> A.wrong \/ (tl \notin own)]
+DoAppend2(A, l, arg, ooo, tl, creat, newr, ser1, br1, own, x) ==
+  DoAppend3(A, l, arg, tl, creat, newr, ser1, br1, own, x, ser1[tl].r,
+            IF ooo THEN [ser1[tl] EXCEPT !.ooh = @ \cup {x}] ELSE AppendIno(ser1[tl], x),
+            creat /\ Conflict(newr, l))
+DoAppend1(A, l, arg, t, stale, ooo, byid, creat, newr, own) ==
+  DoAppend2(A, l, arg, ooo,
+            IF byid THEN A.byRef[arg] ELSE l,                                  \* which memSeries receives the sample (key of ser)
+            creat, newr,
+            IF creat THEN [A.ser EXCEPT ![l] = NewObj(newr)] ELSE A.ser,
+            IF creat THEN SetF(A.byRef, newr, l) ELSE A.byRef,                \* s.series[stripe][ref] = series (overwrites)
+            own, Smp(t, own, stale))
 DoAppend(A, l, arg, t, stale, ooo) ==
-  LET byid  == arg # 0 /\ arg \in DOMAIN A.byRef
-      have  == A.ser[l].ex
-      newr  == A.lastID + 1
-      \* which object receives the sample (key of ser)
-      tl    == IF byid THEN A.byRef[arg] ELSE l
-      creat == ~byid /\ ~have
-      ser1  == IF creat THEN [A.ser EXCEPT ![l] = NewObj(newr)] ELSE A.ser
-      br1   == IF creat THEN SetF(A.byRef, newr, l) ELSE A.byRef            \* s.series[stripe][ref] = series (overwrites)
-      \* the label sets this sample may be returned under: the one given, and the one the ref was handed out for
-      own   == {l} \cup (IF arg # 0 THEN {k \in Labs : arg \in A.issued[k]} ELSE {})
-      x     == Smp(t, own, stale)
-      o     == ser1[tl]
-      o1    == IF ooo THEN [o EXCEPT !.ooh = @ \cup {x}] ELSE AppendIno(o, x)
-      ret   == o.r
-      \* NoReuse at the moment a new ref is handed out
-      bad   == creat /\ Conflict(newr, l)
-      live  == creat /\ newr \in DOMAIN A.byRef
-  IN [ser |-> [ser1 EXCEPT ![tl] = o1], byRef |-> br1, lastID |-> IF creat THEN newr ELSE A.lastID,
-      issued |-> [A.issued EXCEPT ![tl] = @ \cup {ret}],        \* the caller learns: ret is the ref of the series it wrote to
-      news |-> IF creat THEN Append(A.news, E("S", newr, l, NoX)) ELSE A.news,
-      ents |-> Append(A.ents, E("D", ret, tl, x)),
-      recs |-> Append(A.recs, [l |-> l, arg |-> arg, ret |-> ret, tl |-> tl, own |-> LabSeq(own), reuse |-> bad,
-                               creat |-> creat]),
-      kf |-> A.kf \cup (IF live THEN {"KF-C22-2"} ELSE IF bad THEN {"KF-C22-1"} ELSE {}),
-      wrong |-> A.wrong \/ (tl \notin own)]
+  DoAppend1(A, l, arg, t, stale, ooo,
+            arg # 0 /\ arg \in DOMAIN A.byRef,                                \* getByID(ref) finds a series
+            ~(arg # 0 /\ arg \in DOMAIN A.byRef) /\ ~A.ser[l].ex,             \* getOrCreate(labels) creates one
+            A.lastID + 1,
+            \* the label sets this sample may be returned under: the one given, and the one the ref was handed out for
+            {l} \cup (IF arg # 0 THEN {k \in Labs : arg \in A.issued[k]} ELSE {}))
 
 A0 == [ser |-> ser, byRef |-> byRef, lastID |-> lastID, issued |-> issued,
        news |-> <<>>, ents |-> <<>>, recs |-> <<>>, kf |-> {}, wrong |-> FALSE]
@@ -399,11 +403,12 @@ OOO(l, t) ==
 -----------------------------------------------------------------------------
 D0 == [files |-> files, curF |-> curF, cutNext |-> cutNext, cn |-> cn]
 
+MmapWith(p) ==
+  /\ p[2].cn # cn                               \* something to do
+  /\ ser' = p[1] /\ files' = p[2].files /\ curF' = p[2].curF /\ cutNext' = p[2].cutNext /\ cn' = p[2].cn
 Mmap ==
   /\ "Mmap" \in Allowed
-  /\ LET p == MmapAll(ser, byRef, D0, AscSeq(DOMAIN byRef)) IN
-     /\ p[2].cn # cn                               \* something to do
-     /\ ser' = p[1] /\ files' = p[2].files /\ curF' = p[2].curF /\ cutNext' = p[2].cutNext /\ cn' = p[2].cn
+  /\ MmapWith(MmapAll(ser, byRef, D0, AscSeq(DOMAIN byRef)))
   /\ UNCHANGED <<lastID, byRef, exp, hMin, hMax, minValid, lastTr, minOOO, issued, fastOn, segs, first, cp, wbl, blk, blkMax, snap, sst, clk, kfset>>
   /\ Step([a |-> "Mmap"])
 
@@ -411,24 +416,26 @@ Mmap ==
 Vis(sr, br) == {l \in Labs : sr[l].ex /\ sr[l].r \in DOMAIN br /\ br[sr[l].r] = l}
 
 \* DB.CompactHead(NewRangeHead(head, head.MinTime(), T-1))
+\* truncateWAL(T) on the state left by truncateMemory(T)
+CompactHead3(T, g, hm, ag, D, L) ==
+  /\ ser' = g.ser /\ byRef' = g.byRef /\ exp' = L.exp
+  /\ hMin' = ag[1] /\ minValid' = ag[2] /\ hMax' = hm
+  /\ files' = D.files /\ cutNext' = D.cutNext
+  /\ segs' = L.segs /\ first' = L.first /\ cp' = L.cp
+  /\ lastTr' = Max2(lastTr, T)
+\* truncateMemory(T): minTime, minValidTime, gc, chunk file truncation
+CompactHead2(T, g, hm) ==
+  CompactHead3(T, g, hm, AfterGC(g, T, hm, T), CdmTruncate(D0, g.minFile),
+               IF T <= lastTr THEN [segs |-> segs, first |-> first, cp |-> cp, exp |-> g.exp]
+               ELSE TruncateWAL([segs |-> segs, first |-> first, cp |-> cp, exp |-> g.exp], g.byRef, T))
+CompactHead1(T, moved) ==
+  /\ blk' = blk \cup moved
+  /\ blkMax' = IF moved # {} THEN Max2(blkMax, T) ELSE blkMax       \* no block is written for an empty range
+  /\ CompactHead2(T, GC(ser, byRef, exp, T, minOOO), Max2(hMax, T))
 CompactHead(T) ==
   /\ "CompactHead" \in Allowed
   /\ hMin # INF /\ T > hMin /\ T <= hMax
-  /\ /\ blk' = blk \cup UNION {{<<l, x>> : x \in {x \in Ino(ser[l]) : x.t >= hMin /\ x.t < T}} : l \in Vis(ser, byRef)}
-     /\ blkMax' = IF \E l \in Vis(ser, byRef) : \E x \in Ino(ser[l]) : x.t >= hMin /\ x.t < T THEN Max2(blkMax, T) ELSE blkMax
-  \* truncateMemory(T): minTime, minValidTime, gc, chunk file truncation
-  /\ LET g  == GC(ser, byRef, exp, T, minOOO)
-         hm == Max2(hMax, T)
-         ag == AfterGC(g, T, hm, T)
-         D  == CdmTruncate(D0, g.minFile)
-         \* truncateWAL(T)
-         L  == IF T <= lastTr THEN [segs |-> segs, first |-> first, cp |-> cp, exp |-> g.exp]
-               ELSE TruncateWAL([segs |-> segs, first |-> first, cp |-> cp, exp |-> g.exp], g.byRef, T)
-     IN /\ ser' = g.ser /\ byRef' = g.byRef /\ exp' = L.exp
-        /\ hMin' = ag[1] /\ minValid' = ag[2] /\ hMax' = hm
-        /\ files' = D.files /\ cutNext' = D.cutNext
-        /\ segs' = L.segs /\ first' = L.first /\ cp' = L.cp
-        /\ lastTr' = Max2(lastTr, T)
+  /\ CompactHead1(T, UNION {{<<l, x>> : x \in {x \in Ino(ser[l]) : x.t >= hMin /\ x.t < T}} : l \in Vis(ser, byRef)})
   /\ UNCHANGED <<lastID, minOOO, issued, curF, fastOn, wbl, snap, sst, clk, cn, kfset>>
   /\ Step([a |-> "CompactHead", T |-> T])
 
@@ -443,40 +450,42 @@ MmapOOO(sr, br, D, refs) ==
                  IN MmapOOO([sr EXCEPT ![l] = [o EXCEPT !.ooh = {}, !.oom = @ \cup {[f |-> D1.curF, n |-> D.cn, s |-> o.ooh]}]], br, D1, Tail(refs))
             ELSE MmapOOO(sr, br, D, Tail(refs))
 
+CompactOOO3(sr1, g, ag, D, moo1) ==
+  /\ blk' = blk \cup UNION {{<<l, x>> : x \in UNION {c.s : c \in sr1[l].oom}} : l \in Vis(sr1, byRef)}
+  /\ ser' = g.ser /\ byRef' = g.byRef /\ exp' = g.exp
+  /\ hMin' = ag[1] /\ minValid' = ag[2]
+  /\ files' = D.files /\ curF' = D.curF /\ cutNext' = D.cutNext /\ cn' = D.cn
+  /\ minOOO' = moo1
+  /\ wbl' = <<>>                                               \* wbl.Truncate(lastWBLFile)
+CompactOOO2(sr1, D1, moo1, g) == CompactOOO3(sr1, g, AfterGC(g, hMin, hMax, minValid), CdmTruncate(D1, g.minFile), moo1)
+\* truncateOOO -> gc
+CompactOOO1(sr1, D1, moo1) == CompactOOO2(sr1, D1, moo1, GC(sr1, byRef, exp, hMin, moo1))
+\* NewOOOCompactionHead: m-map every ooo head chunk
+CompactOOO0(p) == CompactOOO1(p[1], p[2], Max2(minOOO, MaxOr(UNION {{c.n : c \in p[1][l].oom} : l \in Vis(p[1], byRef)}, 0)))
 CompactOOO ==
   /\ "CompactOOO" \in Allowed
   /\ \E l \in Vis(ser, byRef) : OooAll(ser[l]) # {}
-  /\ LET p    == MmapOOO(ser, byRef, D0, AscSeq(DOMAIN byRef))      \* NewOOOCompactionHead: m-map every ooo head chunk
-         sr1  == p[1]
-         lastN == MaxOr(UNION {{c.n : c \in sr1[l].oom} : l \in Vis(sr1, byRef)}, 0)
-         moo1 == Max2(minOOO, lastN)
-         g    == GC(sr1, byRef, exp, hMin, moo1)                     \* truncateOOO -> gc
-         ag   == AfterGC(g, hMin, hMax, minValid)
-         D    == CdmTruncate(p[2], g.minFile)
-     IN /\ blk' = blk \cup UNION {{<<l, x>> : x \in UNION {c.s : c \in sr1[l].oom}} : l \in Vis(sr1, byRef)}
-        /\ ser' = g.ser /\ byRef' = g.byRef /\ exp' = g.exp
-        /\ hMin' = ag[1] /\ minValid' = ag[2]
-        /\ files' = D.files /\ curF' = D.curF /\ cutNext' = D.cutNext /\ cn' = D.cn
-        /\ minOOO' = moo1
-        /\ wbl' = <<>>                                               \* wbl.Truncate(lastWBLFile)
+  /\ CompactOOO0(MmapOOO(ser, byRef, D0, AscSeq(DOMAIN byRef)))
   /\ UNCHANGED <<lastID, hMax, lastTr, issued, fastOn, segs, first, cp, blkMax, snap, sst, clk, kfset>>
   /\ Step([a |-> "CompactOOO"])
 
 \* DB.CompactSelectedSeries / DB.CompactStaleHead: compactHeadViewLocked, then Head.truncateSeries -> gcSeries
+Evict2(name, sel, drefs, gone, dseq) ==
+  /\ sel # {}
+  /\ blk' = blk \cup UNION {{<<l, x>> : x \in Ino(ser[l])} : l \in sel}
+  /\ ser' = [l \in Labs |-> IF l \in gone THEN NoObj ELSE ser[l]]
+  /\ byRef' = DelF(byRef, drefs)
+  /\ exp' = [r \in DOMAIN exp \cup drefs |-> IF r \in drefs THEN hMax ELSE exp[r]]
+  /\ segs' = [segs EXCEPT ![Len(segs)] = @ \o [i \in 1..Len(dseq) |-> E("T", dseq[i], byRef[dseq[i]], NoX)]]
+  /\ UNCHANGED <<lastID, hMin, hMax, minValid, lastTr, minOOO, issued, curF, cutNext, fastOn, first, cp, wbl, files, blkMax, snap, sst, clk, cn, kfset>>
+  /\ Step([a |-> name, S |-> LabSeq(sel)])
+\* gcSeries iterates the hash maps and matches by ref: every memSeries with one of the refs goes
+Evict1(name, sel, drefs) ==
+  Evict2(name, sel, drefs, {l \in Labs : ser[l].ex /\ ser[l].r \in drefs /\ OooAll(ser[l]) = {}}, AscSeq(drefs))
+Evict0(name, sel) == Evict1(name, sel, {ser[l].r : l \in sel})
 Evict(Sel, name) ==
   /\ hMin # INF /\ hMin <= hMax
-  /\ LET sel == {l \in Sel \cap Vis(ser, byRef) : OooAll(ser[l]) = {}}        \* isSeriesWithoutOOO
-         drefs == {ser[l].r : l \in sel}
-         \* gcSeries iterates the hash maps and matches by ref: every memSeries with one of the refs goes
-         gone == {l \in Labs : ser[l].ex /\ ser[l].r \in drefs /\ OooAll(ser[l]) = {}}
-     IN /\ sel # {}
-        /\ blk' = blk \cup UNION {{<<l, x>> : x \in Ino(ser[l])} : l \in sel}
-        /\ ser' = [l \in Labs |-> IF l \in gone THEN NoObj ELSE ser[l]]
-        /\ byRef' = DelF(byRef, drefs)
-        /\ exp' = [r \in DOMAIN exp \cup drefs |-> IF r \in drefs THEN hMax ELSE exp[r]]
-        /\ segs' = [segs EXCEPT ![Len(segs)] = @ \o [i \in 1..Cardinality(drefs) |-> E("T", AscSeq(drefs)[i], byRef[AscSeq(drefs)[i]], NoX)]]
-        /\ UNCHANGED <<lastID, hMin, hMax, minValid, lastTr, minOOO, issued, curF, cutNext, fastOn, first, cp, wbl, files, blkMax, snap, sst, clk, cn, kfset>>
-        /\ Step([a |-> name, S |-> LabSeq(sel)])
+  /\ Evict0(name, {l \in Sel \cap Vis(ser, byRef) : OooAll(ser[l]) = {}})        \* isSeriesWithoutOOO
 
 EvictSel(Sel) == "EvictSel" \in Allowed /\ Evict(Sel, "EvictSel")
 \* staleSeriesRefsNoOOOData: series whose newest in-order sample is a staleness marker
@@ -510,67 +519,65 @@ RP0(sr, br, lid, D, mmi, mmo, mv) ==
    mmMax |-> [l \in Labs |-> NEG], mv |-> mv, lo |-> INF, hi |-> NEG]
 
 \* one entry of Head.loadWAL
+\* series record: getOrCreateWithOptionalID, then resetSeriesWithMMappedChunks(series, mmappedChunks[walRef], oooMmappedChunks[walRef])
+RStepS2(st, e, have, sr1, br1, o, mmc, ooc, mx) ==
+  [st EXCEPT !.ser = [sr1 EXCEPT ![e.l] = [o EXCEPT !.ch = mmc, !.oom = ooc, !.ooh = {}, !.nextAt = 0]], !.byRef = br1,
+             !.lastID = Max2(@, e.r),
+             !.multi = IF have THEN SetF(@, e.r, o.r) ELSE @,
+             !.mmMax = [@ EXCEPT ![e.l] = mx],
+             !.lo = IF mmc = {} THEN @ ELSE Min2(@, SetMin({c.lo : c \in mmc})),
+             !.hi = IF mmc = {} THEN @ ELSE Max2(@, mx)]
+RStepS1(st, e, have, sr1, mmc) ==
+  RStepS2(st, e, have, sr1, IF have THEN st.byRef ELSE SetF(st.byRef, e.r, e.l), sr1[e.l], mmc, Get(st.mmo, e.r, {}),
+          IF mmc = {} THEN NEG ELSE SetMax({ChMax(c) : c \in mmc}))
+RStepS(st, e) ==
+  RStepS1(st, e, st.ser[e.l].ex, IF st.ser[e.l].ex THEN st.ser ELSE [st.ser EXCEPT ![e.l] = NewObj(e.r)], Get(st.mmi, e.r, {}))
+\* sample record
+RStepD3(st1, e, l, p) ==                                                    \* appendChunkAndMmap
+  [st1 EXCEPT !.ser = [@ EXCEPT ![l] = p[1]], !.D = p[2], !.lo = Min2(@, e.x.t), !.hi = Max2(@, e.x.t)]
+RStepD2(st1, e, l, o) ==
+  IF e.x.t <= st1.mmMax[l] THEN st1
+  ELSE IF e.x.t <= SerMax(o) THEN [st1 EXCEPT !.lo = Min2(@, e.x.t), !.hi = Max2(@, e.x.t)]   \* appendPreprocessor: not in order, dropped
+  ELSE RStepD3(st1, e, l, MmapObj(AppendIno(o, e.x), st1.D))
+RStepD1(st1, e, r) ==
+  IF r \notin DOMAIN st1.byRef THEN st1 ELSE RStepD2(st1, e, st1.byRef[r], st1.ser[st1.byRef[r]])
+RStepD(st, e) ==
+  IF e.x.t < st.mv THEN st
+  ELSE IF e.r \in DOMAIN st.multi
+         THEN RStepD1([st EXCEPT !.exp = SetF(@, e.r, Max2(e.x.t, Get(@, e.r, 0)))], e, st.multi[e.r])   \* updateWALExpiry of the duplicate ref
+         ELSE RStepD1(st, e, e.r)
+\* full-range tombstone: unlinkHash + deleteSeriesByID
+RStepT2(st0, r, l, o, mx) ==
+  [st0 EXCEPT !.ser = [@ EXCEPT ![l] = NoObj], !.byRef = DelF(@, {r}),
+              !.exp = IF mx = NEG THEN @ ELSE SetF(@, o.r, Max2(mx, Get(@, o.r, 0)))]
+RStepT1(st0, r) ==
+  IF r \notin DOMAIN st0.byRef THEN st0
+  ELSE RStepT2(st0, r, st0.byRef[r], st0.ser[st0.byRef[r]], SerMax(st0.ser[st0.byRef[r]]))
+RStepT(st, e) ==
+  RStepT1([st EXCEPT !.lastID = Max2(@, e.r)], IF e.r \in DOMAIN st.multi THEN st.multi[e.r] ELSE e.r)
 RStep(st, e) ==
-  CASE e.k = "S" ->
-        LET have == st.ser[e.l].ex
-            sr1  == IF have THEN st.ser ELSE [st.ser EXCEPT ![e.l] = NewObj(e.r)]
-            br1  == IF have THEN st.byRef ELSE SetF(st.byRef, e.r, e.l)
-            o    == sr1[e.l]
-            \* resetSeriesWithMMappedChunks(series, mmappedChunks[walRef], oooMmappedChunks[walRef])
-            mmc  == Get(st.mmi, e.r, {})
-            ooc  == Get(st.mmo, e.r, {})
-            o1   == [o EXCEPT !.ch = mmc, !.oom = ooc, !.ooh = {}, !.nextAt = 0]
-            mx   == IF mmc = {} THEN NEG ELSE SetMax({ChMax(c) : c \in mmc})
-        IN [st EXCEPT !.ser = [sr1 EXCEPT ![e.l] = o1], !.byRef = br1,
-                      !.lastID = Max2(@, e.r),
-                      !.multi = IF have THEN SetF(@, e.r, o.r) ELSE @,
-                      !.mmMax = [@ EXCEPT ![e.l] = mx],
-                      !.lo = IF mmc = {} THEN @ ELSE Min2(@, SetMin({c.lo : c \in mmc})),
-                      !.hi = IF mmc = {} THEN @ ELSE Max2(@, mx)]
-    [] e.k = "D" ->
-        IF e.x.t < st.mv THEN st
-        ELSE LET dup == e.r \in DOMAIN st.multi
-                 st1 == IF dup THEN [st EXCEPT !.exp = SetF(@, e.r, Max2(e.x.t, Get(@, e.r, 0)))] ELSE st
-                 r   == IF dup THEN st.multi[e.r] ELSE e.r
-             IN IF r \notin DOMAIN st1.byRef THEN st1
-                ELSE LET l == st1.byRef[r]
-                         o == st1.ser[l]
-                     IN IF e.x.t <= st1.mmMax[l] THEN st1
-                        ELSE IF e.x.t <= SerMax(o) THEN [st1 EXCEPT !.lo = Min2(@, e.x.t), !.hi = Max2(@, e.x.t)]   \* appendPreprocessor: not in order, dropped
-                        ELSE LET o1 == AppendIno(o, e.x)
-                                 p  == MmapObj(o1, st1.D)                         \* appendChunkAndMmap
-                             IN [st1 EXCEPT !.ser = [@ EXCEPT ![l] = p[1]], !.D = p[2],
-                                            !.lo = Min2(@, e.x.t), !.hi = Max2(@, e.x.t)]
-    [] e.k = "T" ->
-        LET st0 == [st EXCEPT !.lastID = Max2(@, e.r)]
-            r   == IF e.r \in DOMAIN st0.multi THEN st0.multi[e.r] ELSE e.r
-        IN IF r \notin DOMAIN st0.byRef THEN st0
-           ELSE LET l == st0.byRef[r]
-                    o == st0.ser[l]
-                    mx == SerMax(o)
-                IN \* unlinkHash + deleteSeriesByID
-                   [st0 EXCEPT !.ser = [@ EXCEPT ![l] = NoObj], !.byRef = DelF(@, {r}),
-                               !.exp = IF mx = NEG THEN @ ELSE SetF(@, o.r, Max2(mx, Get(@, o.r, 0)))]
+  CASE e.k = "S" -> RStepS(st, e)
+    [] e.k = "D" -> RStepD(st, e)
+    [] e.k = "T" -> RStepT(st, e)
 
 RECURSIVE RFold(_, _, _)
 RFold(st, es, i) == IF i > Len(es) THEN st ELSE RFold(RStep(st, es[i]), es, i + 1)
 
 \* Head.loadWBL: out-of-order samples back into the ooo head chunk
 RECURSIVE WFold(_, _, _)
+WFold1(st, e, r) ==
+  IF r \notin DOMAIN st.byRef THEN st
+  ELSE [st EXCEPT !.ser = [@ EXCEPT ![st.byRef[r]] = [@ EXCEPT !.ooh = @ \cup {e.x}]]]
 WFold(st, es, i) ==
   IF i > Len(es) THEN st
-  ELSE LET e == es[i]
-           r == IF e.r \in DOMAIN st.multi THEN st.multi[e.r] ELSE e.r
-       IN IF r \notin DOMAIN st.byRef THEN WFold(st, es, i + 1)
-          ELSE LET l == st.byRef[r] IN
-               WFold([st EXCEPT !.ser = [@ EXCEPT ![l] = [@ EXCEPT !.ooh = @ \cup {e.x}]]], es, i + 1)
+  ELSE WFold(WFold1(st, es[i], IF es[i].r \in DOMAIN st.multi THEN st.multi[es[i].r] ELSE es[i].r), es, i + 1)
 
 \* Head.findLastSeriesID: newest segment (down to state.LastWALSegment) that holds a series record
 RECURSIVE ScanLast(_, _, _, _, _)
+ScanLast1(sg, fst, i, lo, dflt, ss) == IF ss # {} THEN SetMax(ss) ELSE ScanLast(sg, fst, i - 1, lo, dflt)
 ScanLast(sg, fst, i, lo, dflt) ==
   IF i < lo \/ i < fst THEN dflt
-  ELSE LET ss == {e.r : e \in {e \in Range(sg[i - fst + 1]) : e.k = "S"}} IN
-       IF ss # {} THEN SetMax(ss) ELSE ScanLast(sg, fst, i - 1, lo, dflt)
+  ELSE ScanLast1(sg, fst, i, lo, dflt, {e.r : e \in {e \in Range(sg[i - fst + 1]) : e.k = "S"}})
 
 \* all chunks of the head-chunk files in file and write order
 AllChunks(fl) == Flat([i \in 1..Cardinality(DOMAIN fl) |-> fl[AscSeq(DOMAIN fl)[i]]])
@@ -676,13 +683,13 @@ End == nops = MaxOps /\ nops' = MaxOps + 1 /\ UNCHANGED <<mvars, dvars, clk, cn,
 
 Next ==
   \/ /\ nops < MaxOps
-     /\ \/ \E S \in (SUBSET Labs) \ {{}}, kind \in Kinds, g \in Gaps : Scrape(S, kind, g)
+     /\ \/ \E S \in Subsets, kind \in Kinds, g \in Gaps : Scrape(S, kind, g)
         \/ \E l \in Labs, r \in 1..lastID, g \in Gaps : Cross(l, r, g)
         \/ \E l \in Labs, d \in OOOBack : OOO(l, clk - d)
         \/ Mmap
         \/ \E T \in 1..MaxClk : CompactHead(T)
         \/ CompactOOO
-        \/ \E S \in (SUBSET Labs) \ {{}} : EvictSel(S)
+        \/ \E S \in Subsets : EvictSel(S)
         \/ EvictStale
         \/ Cut
         \/ Tick
@@ -724,17 +731,26 @@ AppendRight == [][ (hist' # hist /\ kfset' = {} /\ hist'[Len(hist')].a \in {"Scr
 -----------------------------------------------------------------------------
 (* Emission *)
 LastRec == hist'[Len(hist')]
+\* what still carries the highest allocated reference (i.e. what would keep the allocator up across a restart)
+KeptBy == LET r == lastID IN
+          (IF \E e \in Range(cp.es) : e.r = r /\ e.k = "S" THEN {"cpS"} ELSE {})
+          \cup (IF \E e \in Range(Flat(segs)) : e.r = r /\ e.k = "S" THEN {"S"} ELSE {})
+          \cup (IF \E e \in Range(AllEntries) : e.r = r /\ e.k = "T" THEN {"T"} ELSE {})
+          \cup (IF \E e \in Range(AllEntries) : e.r = r /\ e.k = "D" THEN {"D"} ELSE {})
+          \cup (IF \E f \in DOMAIN files : \E c \in Range(files[f]) : c.r = r THEN {"chunk"} ELSE {})
+          \cup (IF snap.ok /\ \E x \in snap.sers : x.r = r THEN {"snap"} ELSE {})
+          \cup (IF r \in DOMAIN byRef THEN {"live"} ELSE {})
 Class ==
   LET r == LastRec IN
   IF r.a \in {"Scrape", "Cross", "OOO"} THEN
        <<r.a, {<<p.creat, p.arg = 0, p.arg # 0 /\ p.arg \notin DOMAIN byRef, p.tl = p.l, p.reuse, p.ret = lastID + 1>> : p \in Range(r.apps)},
-         Len(segs), cp.idx >= 0, kfset' # {}>>
+         cp.idx >= 0, KeptBy, UNION {issued[l] : l \in Labs} = {}, kfset' # {}>>
   ELSE IF r.a = "CompactHead" THEN <<r.a, ser' # ser, cp' # cp, Len(cp'.es) < Len(cp.es) + Len(Flat(segs)), files' # files, DOMAIN exp' # DOMAIN exp, kfset # {}>>
   ELSE IF r.a = "CompactOOO" THEN <<r.a, DOMAIN byRef' # DOMAIN byRef, DOMAIN files' # DOMAIN files, kfset # {}>>
   ELSE IF r.a \in {"EvictSel", "EvictStale"} THEN <<r.a, Len(r.S), cp.idx >= 0, kfset # {}>>
   ELSE IF r.a \in {"Restart", "Crash"} THEN
        <<r.a, r.fast, fastOn, sst.ok, sst.clean, snap.ok, lastID' < lastID, lastID' = lastID,
-         DOMAIN byRef' = DOMAIN byRef, cp.idx >= 0, DOMAIN files # {}, wbl # <<>>, DOMAIN exp' # {}, kfset # {}>>
+         DOMAIN byRef' = DOMAIN byRef, cp.idx >= 0, DOMAIN files # {}, wbl # <<>>, DOMAIN exp' # {}, KeptBy, kfset # {}>>
   ELSE <<r.a>>
 
 Emit ==
